@@ -15,7 +15,7 @@ Local Open Scope N_scope.
 
 Inductive tree := Leaf (sym : N) | Node (l r : tree).
 
-Definition code := list bool.   (* MSB (root edge) first; false = left = 0 *)
+Notation code := (list bool) (only parsing). (* MSB (root edge) first; false = left = 0 *)
 
 Fixpoint codes_of_tree (t : tree) : list (N * code) :=
   match t with
@@ -263,6 +263,65 @@ Definition recombine_root (levels : list Z) : option tree :=
 (* success = the stack collapsed to one node of level 0 *)
 Definition recombine (levels : list Z) : option tree :=
   match recombine_stack levels with [(t, 0%Z)] => Some t | _ => None end.
+
+(* --- the same algorithm statement by statement over the C arrays: seq[] (nodes), levels[] (ints),
+   stack[0..pos] (leaf indices, here top first); every read is checked ([None] = out of bounds).
+   CodesProofs.recombine_arr_refines shows it computes [recombine_stack]. *)
+Fixpoint updN {A} (l : list A) (i : nat) (v : A) : list A :=
+  match l, i with
+  | [], _ => []
+  | _ :: r, O => v :: r
+  | x :: r, S k => x :: updN r k v
+  end.
+
+Record rarr := { ra_seq : list tree; ra_lev : list Z; ra_stack : list N }.
+
+Fixpoint reduce_arr (fuel : nat) (s : rarr) : option rarr :=
+  match fuel with
+  | O => Some s
+  | S f =>
+    match ra_stack s with
+    | j :: i :: r =>
+      match nthN (ra_lev s) j, nthN (ra_lev s) i, nthN (ra_seq s) i, nthN (ra_seq s) j with
+      | Some lj, Some li, Some ti, Some tj =>
+        if Z.eqb lj li then
+          reduce_arr f {| ra_seq := updN (ra_seq s) (N.to_nat i) (Node ti tj);
+                          ra_lev := updN (ra_lev s) (N.to_nat i) (li - 1)%Z;
+                          ra_stack := i :: r |}
+        else Some s
+      | _, _, _, _ => None
+      end
+    | _ => Some s
+    end
+  end.
+
+Fixpoint recombine_arr_loop (todo : nat) (cont : N) (s : rarr) : option rarr :=
+  match todo with
+  | O => Some s
+  | S k =>
+    match reduce_arr (S (length (ra_stack s)))
+                     {| ra_seq := ra_seq s; ra_lev := ra_lev s; ra_stack := cont :: ra_stack s |} with
+    | Some s' => recombine_arr_loop k (cont + 1) s'
+    | None => None
+    end
+  end.
+
+Fixpoint leaf_seq (start : N) (n : nat) : list tree :=
+  match n with O => [] | S k => Leaf start :: leaf_seq (start + 1) k end.
+
+Definition recombine_arr (levels : list Z) : option rarr :=
+  match levels with
+  | [] => None
+  | _ :: r => recombine_arr_loop (length r) 1
+                {| ra_seq := leaf_seq 0 (length levels); ra_lev := levels; ra_stack := [0] |}
+  end.
+
+(* root = seq[stack[pos]] *)
+Definition recombine_arr_root (levels : list Z) : option tree :=
+  match recombine_arr levels with
+  | Some s => match ra_stack s with top :: _ => nthN (ra_seq s) top | [] => None end
+  | None => None
+  end.
 
 (* leaf symbols with their absolute level when the root of [t] is at level [l] *)
 Fixpoint leaf_levels (t : tree) (l : Z) : list (N * Z) :=
